@@ -27,7 +27,8 @@ Three exhaustive families, all on the real uri / nodemaker / unknown modules:
     (error set, no uris) or: no write uri in a deep-immutable context, a write uri only if it
     is verbatim the rw-slot string, and a read uri that is one of the given strings carrying an
     alleged prefix at least as strong as given / as the context demands.
-(d) STORED MARKINGS.  Every slot/prefix arrangement of the future capability strings is linked into a
+(d) STORED MARKINGS.  Every slot/prefix arrangement of the future capability strings, and every known write-cap
+    kind carrying ro. / imm. in either slot, is linked into a
     mutable directory (real DirectoryNode pack/unpack over vt/lib_memdir) and listed by another client
     through the write-cap and the read-cap: the child must not have gained a write uri and its read uri
     must still carry a marking at least as strong (imm. > ro. > none) as before it was stored.
@@ -403,7 +404,9 @@ def check_stored(w, r):
     c = world.client()
     try:
         n = c.create_from_cap(w, r)
-        if not n.is_unknown() or n.error is not None:
+        if n.is_unknown() and n.error is not None:
+            return [], "stored:skipped"
+        if not n.is_unknown() and not (L.split_alleged(w or r)[0]):
             return [], "stored:skipped"
         wu, ru = n.get_write_uri(), n.get_readonly_uri()
         dn = mkdir(c)
@@ -493,6 +496,13 @@ def run(tier, seed):
         for (w, r) in future_arrangements(f):
             if w or r:
                 cases.append({"t": "stored", "w": w, "r": r, "nontrivial": True})
+    # known WRITE caps alleged read-only / immutable, offered in either slot: refused, or stored without authority
+    for (kind, fields) in node_values:
+        if L.KINDS[kind].authority == "write" and fields[0] == node_values[0][1][0] if L.KINDS[kind].layout != "lit" else False:
+            c = L.build(kind, fields)
+            for pfx in (b"ro.", b"imm."):
+                cases.append({"t": "stored", "w": None, "r": pfx + c, "nontrivial": True})
+                cases.append({"t": "stored", "w": pfx + c, "r": None, "nontrivial": True})
     res = common.pmap(_chunk, cases)
     for c in (cases[0], cases[len(cases) // 2], cases[-1]):
         res.sample({k: v for k, v in c.items() if k != "nontrivial"})
